@@ -27,7 +27,7 @@ CATALOGUE = {
     "dpm": (True, 3, "peakdir"), "dpspr": (True, 3, "peakwidth"),
     "stats_list": (True, 3, "statsds"), "stats_band": (True, 3, "statsds"),
     "smooth33": (True, 1, "transform"), "smooth_f": (True, 1, "transform"), "smooth_d5": (True, 1, "transform"),
-    "interp_freq": (True, 2, "transform"), "interp_dir": (True, 2, "transform"), "interp_both": (True, 2, "transform"), "interp_nom0": (True, 2, "transform"),
+    "interp_freq": (True, 2, "transform"), "interp_dir": (True, 2, "transform"), "interp_both": (True, 2, "transform"), "interp_nom0": (True, 2, "transform"), "interp_noop": (True, 1, "transform"),
     "rotate": (True, 1, "transform"), "rotate_bin": (True, 1, "transform"),
     "split_f": (True, 3, "transform"), "split_fd": (True, 3, "transform"), "scale_by_hs": (True, 3, "transform"),
     "ptm4": (True, 2, "split"), "ptm5": (True, 3, "split"), "ptm5_node": (True, 3, "split"), "bbox": (True, 3, "split"),
@@ -114,6 +114,8 @@ def apply(spec, da, aux=None):
         return sp.smooth(3, 1)
     if op == "smooth_d5":
         return sp.smooth(1, 5 if da.sizes["dir"] >= 5 else 3)
+    if op == "interp_noop":
+        return sp.interp(maintain_m0=False)  # no target given, no rescaling: the spectra come back as they are
     if op in ("interp_freq", "interp_both", "interp_nom0"):
         f = _fsorted(da)
         newf = np.concatenate([[f[0] * 0.8], 0.5 * (f[:-1] + f[1:]), [f[-1] * 1.1]]) if op != "interp_nom0" else 0.5 * (f[:-1] + f[1:])
